@@ -140,6 +140,7 @@ func exploreUnit(o *checkOpts, unit *CheckSpec, patches []SourcePatch, dumpDir s
 	}
 	ur.jobs = jobs
 	r := newRun(prog, unit, o.solver, o.timeout)
+	r.seed = o.seed
 	if dumpDir != "" && o.crossEvery > 0 {
 		// one sub-directory per exploration: units and phases must not overwrite each other's dumps
 		exploreSeq++
